@@ -5,6 +5,7 @@ import Perp.Spec.MonitorTx
 import Perp.Spec.Registry
 import Perp.Spec.Roles
 import Perp.Spec.Scope
+import Perp.Spec.LimitV
 import Perp.Model.Fault
 import Driver.WorldParse
 
@@ -431,10 +432,20 @@ def handleWObs (acc : Acc) (h : WHist) (kv : KV) (_line : String) : Acc × WHist
       let modelVerdict : String :=
         match World.applyTx h.last.w env sender funds tx with
         | .ok _ => "{model-accepts}"
-        | .error _ => if cfgInRange then "{model-rejects}" else "{model-rejects,stored-engine-ratio-out-of-range}"
-      let acc := (allChecks step ++ extraChecks step ++ extraChecks2 step ++ extraChecks3 step ++ extraChecks4 step ++ extraChecks5 step ++ extraChecks6 step).foldl (fun a pc =>
+        | .error e => if cfgInRange then "{model-rejects:" ++ errTagOf e ++ "}" else "{model-rejects,stored-engine-ratio-out-of-range}"
+      -- C07 quantifies over deployments whose engine pays from / draws on ITS insurance fund and fee pool; while the owner has the engine
+      -- pointed at another account (re-wiring, outside the quantifier — WORLD_ASSUMPTIONS) a liquidation that needs the fund cannot work
+      let c07InScope := Perp.Spec.Monitor.wiredB h.last.w &&
+        (match tx with
+         | .engine (.liquidate v _ _) =>
+           (match h.last.w.vamm? v with
+            | some x => x.cfg.pricefeed == FEED && x.cfg.marginEngine == ENGINE   -- … and the market reads THE price feed
+            | none => true)
+         | _ => true)
+      let acc := (allChecks step ++ extraChecks step ++ extraChecks2 step ++ extraChecks3 step ++ extraChecks4 step ++ extraChecks5 step ++ extraChecks6 step ++ extraChecks7 step).foldl (fun a pc =>
         pc.2.foldl (fun a tag =>
-          a.report "SPECFAIL" pc.1 (if pc.1 == "C07" then s!"{kind}:{tag}{errClass}{modelVerdict}" else s!"{kind}:{tag}") tline) a) acc
+          if pc.1 == "C07" && !c07InScope then a.hypCount "c07:outside-the-quantifier(engine-or-market-re-wired-to-another-fund-pool-or-feed)" else
+          a.report "SPECFAIL" pc.1 (if pc.1 == "C07" then s!"{kind}:{tag}{modelVerdict}" else s!"{kind}:{tag}") tline) a) acc
       -- C14: the insurance fund's membership queries agree with its stored registry (after every transaction)
       let acc :=
         match _okv.get? "if.qall" with
